@@ -28,7 +28,12 @@ PatternAddrs(m) == {AddrOf(m, s) : s \in Schemes}
 U6 == UNION {PatternAddrs(m) : m \in 0..255}
 Quads == [1..4 -> QuadOctets]
 EmbeddedAddrs == {Zeros(10) \o <<p, p>> \o q : p \in {0, 255}, q \in Quads}
-U4 == [1..4 -> V4Octets]
+McOctets == {223, 224, 239, 240}                       \* around 224.0.0.0/4, first octet only
+U4 == {a \in [1..4 -> V4Octets \cup McOctets] : \A k \in 2..4 : a[k] \in V4Octets}
+(* addresses around ff00::/8 (multicast), fe80::/10, and the documentation examples *)
+Special6 == {<<h, lo>> \o Zeros(13) \o <<e>> : h \in {254, 255}, lo \in {0, 2, 128}, e \in {0, 1}}
+            \cup {<<32, 1, 13, 184>> \o Zeros(11) \o <<1>>, <<32, 1, 5, 3, 131, 235>> \o Zeros(9) \o <<48>>,
+                  <<0, 100, 255, 155>> \o Zeros(8) \o <<192, 0, 2, 33>>}
 
 -----------------------------------------------------------------------------
 (* spellings of an address *)
